@@ -104,7 +104,7 @@ pub fn bij_si(index: usize, w: [u32; 4]) -> [u32; 4] {
     })
 }
 
-//@ harness name=serpent_leaf_sbox prop=C08,C03,C20 tier=quick bits=192 est=10 desc="L: bitslice::apply_s(index, x) (sbox_e0..e7 circuits) == the paper's table S_{index mod 8} applied to each of the 32 bit lanes, for every usize index and every 128-bit x"
+//@ harness name=serpent_leaf_sbox prop=C08,C03,C20 tier=quick bits=192 est=15 desc="L: bitslice::apply_s(index, x) (sbox_e0..e7 circuits) == the paper's table S_{index mod 8} applied to each of the 32 bit lanes, for every usize index and every 128-bit x"
 verif_harness! {
     name: serpent_leaf_sbox,
     bytes: 24,
@@ -116,7 +116,7 @@ verif_harness! {
     }
 }
 
-//@ harness name=serpent_leaf_sbox_inv prop=C08,C03,C20 tier=quick bits=192 est=10 desc="L: bitslice::apply_s_inv(index, x) (sbox_d0..d7 circuits) == the inverse table of S_{index mod 8} applied to each of the 32 bit lanes, every usize index, every 128-bit x"
+//@ harness name=serpent_leaf_sbox_inv prop=C08,C03,C20 tier=quick bits=192 est=15 desc="L: bitslice::apply_s_inv(index, x) (sbox_d0..d7 circuits) == the inverse table of S_{index mod 8} applied to each of the 32 bit lanes, every usize index, every 128-bit x"
 verif_harness! {
     name: serpent_leaf_sbox_inv,
     bytes: 24,
@@ -128,7 +128,7 @@ verif_harness! {
     }
 }
 
-//@ harness name=serpent_leaf_sbox_bij prop=C01,C03 tier=quick bits=192 est=15 desc="L: apply_s_inv(i, apply_s(i, x)) == x and apply_s(i, apply_s_inv(i, x)) == x for every index and every 128-bit x (justifies the uninterpreted bijections of the round-trip harnesses)"
+//@ harness name=serpent_leaf_sbox_bij prop=C01,C03 tier=quick bits=192 est=20 desc="L: apply_s_inv(i, apply_s(i, x)) == x and apply_s(i, apply_s_inv(i, x)) == x for every index and every 128-bit x (justifies the uninterpreted bijections of the round-trip harnesses)"
 verif_harness! {
     name: serpent_leaf_sbox_bij,
     bytes: 24,
@@ -168,7 +168,7 @@ fn arb_state(inp: &[u8; 544]) -> (Serpent, [[u32; 4]; 33], [u8; 16]) {
     (Serpent { round_keys: rk }, rk, take(inp, 528))
 }
 
-//@ harness name=serpent_wire_enc prop=C08,C03,C20 tier=quick bits=4352 stub=1 est=85 need=4 desc="W: encrypt_block on an arbitrary round-key state (superset of all keys), every block == oracle 32 rounds (key mixing, S_{i mod 8}, LT, last round without LT + K_32); apply_s uninterpreted (shared)"
+//@ harness name=serpent_wire_enc prop=C08,C03,C20 tier=quick bits=4352 stub=1 est=75 need=4 desc="W: encrypt_block on an arbitrary round-key state (superset of all keys), every block == oracle 32 rounds (key mixing, S_{i mod 8}, LT, last round without LT + K_32); apply_s uninterpreted (shared)"
 verif_harness! {
     name: serpent_wire_enc,
     bytes: 544,
@@ -182,7 +182,7 @@ verif_harness! {
     }
 }
 
-//@ harness name=serpent_wire_dec prop=C08,C03,C20 tier=quick bits=4352 stub=1 est=175 need=4 desc="W: decrypt_block on an arbitrary round-key state, every block == oracle inverse rounds; apply_s_inv uninterpreted (shared)"
+//@ harness name=serpent_wire_dec prop=C08,C03,C20 tier=quick bits=4352 stub=1 est=115 need=4 desc="W: decrypt_block on an arbitrary round-key state, every block == oracle inverse rounds; apply_s_inv uninterpreted (shared)"
 verif_harness! {
     name: serpent_wire_dec,
     bytes: 544,
@@ -196,7 +196,7 @@ verif_harness! {
     }
 }
 
-//@ harness name=serpent_roundtrip_ed prop=C01,C03 tier=quick bits=4352 stub=1 est=115 need=6 desc="W: decrypt(encrypt(b)) == b on an arbitrary round-key state (superset of all keys of all lengths), every block; S-box layers are uninterpreted mutually inverse permutations (leaf lemma serpent_leaf_sbox_bij), real linear transformations"
+//@ harness name=serpent_roundtrip_ed prop=C01,C03 tier=quick bits=4352 stub=1 est=145 need=6 desc="W: decrypt(encrypt(b)) == b on an arbitrary round-key state (superset of all keys of all lengths), every block; S-box layers are uninterpreted mutually inverse permutations (leaf lemma serpent_leaf_sbox_bij), real linear transformations"
 verif_harness! {
     name: serpent_roundtrip_ed,
     bytes: 544,
@@ -211,7 +211,7 @@ verif_harness! {
     }
 }
 
-//@ harness name=serpent_roundtrip_de prop=C01,C03 tier=quick bits=4352 stub=1 est=125 need=6 desc="W: encrypt(decrypt(b)) == b on an arbitrary round-key state, every block; S-box layers uninterpreted mutually inverse permutations"
+//@ harness name=serpent_roundtrip_de prop=C01,C03 tier=quick bits=4352 stub=1 est=135 need=6 desc="W: encrypt(decrypt(b)) == b on an arbitrary round-key state, every block; S-box layers uninterpreted mutually inverse permutations"
 verif_harness! {
     name: serpent_roundtrip_de,
     bytes: 544,
